@@ -93,12 +93,12 @@ func (l *Layout) Covered() [64]bool {
 //   - ipv4: B[0:4]; addrport: B[0:4] + U = port; mac: B[0:6]
 //   - date: Y,M,D (Zero = the 'no date' value); datetime: Y,M,D,h,m,s; systime: h,m,s; hhmm: h,m
 type Val struct {
-	K                   Kind
-	U                   uint64
-	B                   []byte
-	Y, Mo, D, H, Mi, S  int
-	Zero                bool // zero 'no value' date / date-time
-	Invalid             bool // (addrport) the zero netip.AddrPort / (ip) nil
+	K                  Kind
+	U                  uint64
+	B                  []byte
+	Y, Mo, D, H, Mi, S int
+	Zero               bool // zero 'no value' date / date-time
+	Invalid            bool // (addrport) the zero netip.AddrPort / (ip) nil
 }
 
 func (v Val) String() string {
@@ -140,17 +140,17 @@ func (v Val) String() string {
 	return "?"
 }
 
-func UVal(k Kind, u uint64) Val  { return Val{K: k, U: u} }
+func UVal(k Kind, u uint64) Val { return Val{K: k, U: u} }
 func BoolVal(b bool) Val {
 	if b {
 		return Val{K: Bool, U: 1}
 	}
 	return Val{K: Bool}
 }
-func DateVal(y, m, d int) Val    { return Val{K: Date, Y: y, Mo: m, D: d} }
-func ZeroDate() Val              { return Val{K: Date, Zero: true} }
-func HHmmVal(h, m int) Val       { return Val{K: HHmm, H: h, Mi: m} }
-func IPVal(a, b, c, d byte) Val  { return Val{K: IPv4, B: []byte{a, b, c, d}} }
+func DateVal(y, m, d int) Val   { return Val{K: Date, Y: y, Mo: m, D: d} }
+func ZeroDate() Val             { return Val{K: Date, Zero: true} }
+func HHmmVal(h, m int) Val      { return Val{K: HHmm, H: h, Mi: m} }
+func IPVal(a, b, c, d byte) Val { return Val{K: IPv4, B: []byte{a, b, c, d}} }
 func DateTimeVal(y, mo, d, h, mi, s int) Val {
 	return Val{K: DateTime, Y: y, Mo: mo, D: d, H: h, Mi: mi, S: s}
 }
@@ -279,7 +279,11 @@ func Encode(l *Layout, som byte, vals Vals) []byte {
 	msg[1] = l.Fn
 	for _, f := range l.Fields {
 		if f.Kind == Magic {
-			EncodeField(msg, f, Val{K: Magic, U: 0x55aaaa55})
+			if v, ok := vals[f.Name]; ok { // struct level round trips carry an explicit value
+				EncodeField(msg, f, v)
+			} else {
+				EncodeField(msg, f, Val{K: Magic, U: 0x55aaaa55})
+			}
 			continue
 		}
 		if v, ok := vals[f.Name]; ok {
